@@ -244,4 +244,188 @@ def seqOK [BEq α] (cut : α → Bool) (reverse : Bool) (t d : List α) : Bool :
   pepsOK cut noBlock reverse t d &&
   cleavageSites cut noBlock d == cleavageSites cut noBlock t
 
+/-! ## general enzymes: the regex is a parameter
+
+`_cleavage_sites` accepts *any* regular expression.  For the theorems that do not depend on
+the enzyme being a residue class, the regex is a parameter `ends : List α → List Nat`
+(`[m.end() for m in enzyme_regex.finditer(sequence)]`); what `re.finditer` guarantees
+(matches are reported left to right, do not overlap and lie inside the text) is the
+hypothesis `EndsOK` of the theorems.  `matchEnds cut block 0` is the instance for a residue
+class with optional negative look-ahead. -/
+
+/-- `_cleavage_sites` for an arbitrary enzyme.  src: mokapot/parsers/fasta.py:419-440 -/
+def cleavageSitesOf (ends : List α → List Nat) (seq : List α) : List Nat :=
+  0 :: (ends seq ++ [seq.length])
+
+/-- decoy of one protein, any enzyme.  src: mokapot/parsers/fasta.py:380-414 -/
+def shuffleProteinE (perms : Nat → List Nat) (pre : List Char) (ends : List Char → List Nat)
+    (p : List Char × List Char) : Option (List Char × List Char) :=
+  (shuffleLoop perms (cleavageSitesOf ends p.2) p.2).map (fun s => (pre ++ p.1, s))
+
+/-- `_shuffle_proteins`, any enzyme.  src: mokapot/parsers/fasta.py:360-416 -/
+def shuffleProteinsE (perms : Nat → List Nat) (pre : List Char) (ends : List Char → List Nat)
+    (ps : List (List Char × List Char)) : Option (List (List Char × List Char)) :=
+  sequenceOpt (ps.map (shuffleProteinE perms pre ends))
+
+/-- **Spec of one decoy protein**, any enzyme -/
+def decoySpecE (perms : Nat → List Nat) (pre : List Char) (ends : List Char → List Nat)
+    (t : List Char × List Char) : List Char × List Char :=
+  (pre ++ t.1, specLoop perms (cleavageSitesOf ends t.2) t.2)
+
+/-- src: mokapot/parsers/fasta.py:236-243 -/
+def decoyEntriesE (perms : Nat → List Nat) (pre : List Char) (ends : List Char → List Nat) (concat : Bool)
+    (targets : List (List Char × List Char)) : Option (List (List Char × List Char)) :=
+  (shuffleProteinsE perms pre ends targets).map (fun d => if concat then targets ++ d else d)
+
+/-- `make_decoys`, any enzyme.  src: mokapot/parsers/fasta.py:190-260 -/
+def makeDecoysE (perms : Nat → List Nat) (pre : List Char) (ends : List Char → List Nat) (concat : Bool)
+    (w : Nat) (files : List (List Char)) : Option (List Char) :=
+  ((parseFasta files).bind (decoyEntriesE perms pre ends concat)).map (renderFasta w)
+
+/-- the enzyme-independent clauses of C18 for explicitly given sites of the target -/
+def pepsOKAt [BEq α] (sites : List Nat) (reverse : Bool) (t d : List α) : Bool :=
+  d.length == t.length && d.isPerm t &&
+  (pairs sites).all (fun p => pepOK reverse (slice t p.1 p.2) (slice d p.1 p.2))
+
+/-- executable form of `SitesOK`: non-decreasing, bounded by `n` -/
+def sitesOKb (n : Nat) : List Nat → Bool
+  | [] => true
+  | [s] => s ≤ n
+  | s :: e :: rest => s ≤ e && s ≤ n && sitesOKb n (e :: rest)
+
+/-! ## the `perms` dict and the calls of `np.random.permutation` (stateful refinement)
+
+`shuffleLoop` takes the *final* content of the `perms` dict as a function.  The functions
+below follow the code: the dict starts empty in every call of `_shuffle_proteins`, is filled
+on first need of a length (reversal: `np.flip(np.arange(n))`; shuffling: the retry loop around
+`np.random.permutation`), is never overwritten, and is shared by all proteins of the call.
+The random generator is the oracle `rng k n` = what the `k`-th call (counted from 0 within
+this `make_decoys` call) of `np.random.permutation` returns when given `np.arange(n)`.
+The state is `(dict, number of calls made so far)`. -/
+
+abbrev PermDict := List (Nat × List Nat)
+abbrev DrawState := PermDict × Nat
+
+/-- `while tries < 100 and np.array_equal(base, perm): perm = np.random.permutation(base); tries += 1`
+with `fuel = 100 - tries`; returns the permutation kept and the call counter.
+src: mokapot/parsers/fasta.py:402-408 -/
+def retryLoop (rng : Nat → Nat → List Nat) (n : Nat) : Nat → Nat → List Nat → List Nat × Nat
+  | 0, k, perm => (perm, k)
+  | fuel + 1, k, perm =>
+    if perm = List.range n then retryLoop rng n fuel (k + 1) (rng k n) else (perm, k)
+
+/-- the value stored under a new key.  src: mokapot/parsers/fasta.py:399-410 -/
+def newPerm (reverse : Bool) (rng : Nat → Nat → List Nat) (n k : Nat) : List Nat × Nat :=
+  if reverse then (revPerm n, k) else retryLoop rng n 100 k (List.range n)
+
+def permForAux (reverse : Bool) (rng : Nat → Nat → List Nat) (n : Nat) (st : DrawState) :
+    Option (List Nat) → List Nat × DrawState
+  | some p => (p, st)
+  | none => ((newPerm reverse rng n st.2).1,
+             ((n, (newPerm reverse rng n st.2).1) :: st.1, (newPerm reverse rng n st.2).2))
+
+/-- `if pep_len not in perms.keys(): perms[pep_len] = …` followed by `perms[pep_len]`.
+src: mokapot/parsers/fasta.py:398-412 -/
+def permFor (reverse : Bool) (rng : Nat → Nat → List Nat) (n : Nat) (st : DrawState) :
+    List Nat × DrawState :=
+  permForAux reverse rng n st (st.1.lookup n)
+
+/-- `stepPair` with the dict threaded through.  src: mokapot/parsers/fasta.py:389-412 -/
+def stepPairS (reverse : Bool) (rng : Nat → Nat → List Nat) (st : DrawState) (cur : List α) (s e : Nat) :
+    Option (List α × DrawState) :=
+  if e - 1 - (s + 1) ≤ 1 then some (cur, st)
+  else (gather cur (s + 1) (permFor reverse rng (e - 1 - (s + 1)) st).1).map
+    (fun v => (sliceAssign cur (s + 1) (e - 1) v, (permFor reverse rng (e - 1 - (s + 1)) st).2))
+
+/-- src: mokapot/parsers/fasta.py:384-412 -/
+def shuffleLoopS (reverse : Bool) (rng : Nat → Nat → List Nat) :
+    List Nat → List α → DrawState → Option (List α × DrawState)
+  | [], cur, st => some (cur, st)
+  | [_], cur, st => some (cur, st)
+  | s :: e :: rest, cur, st =>
+    (stepPairS reverse rng st cur s e).bind (fun r => shuffleLoopS reverse rng (e :: rest) r.1 r.2)
+
+/-- the loop over the proteins; the dict outlives each protein.
+src: mokapot/parsers/fasta.py:380-416 -/
+def shuffleProteinsS (reverse : Bool) (rng : Nat → Nat → List Nat) (pre : List Char)
+    (ends : List Char → List Nat) :
+    List (List Char × List Char) → DrawState → Option (List (List Char × List Char) × DrawState)
+  | [], st => some ([], st)
+  | p :: ps, st =>
+    (shuffleLoopS reverse rng (cleavageSitesOf ends p.2) p.2 st).bind (fun r =>
+      (shuffleProteinsS reverse rng pre ends ps r.2).map (fun q => ((pre ++ p.1, r.1) :: q.1, q.2)))
+
+/-- `perms = {}` (line 381): every call starts with an empty dict and no call made -/
+def drawState0 : DrawState := ([], 0)
+
+/-- `open(out_file, "w+")` + `write`: an existing file is truncated first, so the content
+afterwards is the text written, whatever was there.  src: mokapot/parsers/fasta.py:256-257 -/
+def writeTrunc (_old : Option (List Char)) (text : List Char) : List Char := text
+
+/-- `make_decoys` with the dict and the generator threaded through: file texts and the
+previous content of `out_file` in, content of `out_file` and number of
+`np.random.permutation` calls out.  src: mokapot/parsers/fasta.py:190-260 -/
+def makeDecoysS (reverse : Bool) (rng : Nat → Nat → List Nat) (pre : List Char)
+    (ends : List Char → List Nat) (concat : Bool) (w : Nat) (old : Option (List Char))
+    (files : List (List Char)) : Option (List Char × Nat) :=
+  (parseFasta files).bind (fun ts =>
+    (shuffleProteinsS reverse rng pre ends ts drawState0).map (fun r =>
+      (writeTrunc old (renderFasta w (if concat then ts ++ r.1 else r.1)), r.2.2)))
+
+/-! ### pure description of the dict evolution (it depends on the sites only) -/
+
+/-- the function the dict `d` denotes; lengths never entered get the value they *would* get
+in reversal mode, resp. the identity (they are never looked up) -/
+def famOfDict (reverse : Bool) (d : PermDict) : Nat → List Nat :=
+  fun n => (d.lookup n).getD (if reverse then revPerm n else List.range n)
+
+def stateAfterPair (reverse : Bool) (rng : Nat → Nat → List Nat) (st : DrawState) (s e : Nat) : DrawState :=
+  if e - 1 - (s + 1) ≤ 1 then st else (permFor reverse rng (e - 1 - (s + 1)) st).2
+
+def stateAfterLoop (reverse : Bool) (rng : Nat → Nat → List Nat) : List Nat → DrawState → DrawState
+  | [], st => st
+  | [_], st => st
+  | s :: e :: rest, st => stateAfterLoop reverse rng (e :: rest) (stateAfterPair reverse rng st s e)
+
+def stateAfterProteins (reverse : Bool) (rng : Nat → Nat → List Nat) (ends : List Char → List Nat) :
+    List (List Char × List Char) → DrawState → DrawState
+  | [], st => st
+  | p :: ps, st =>
+    stateAfterProteins reverse rng ends ps (stateAfterLoop reverse rng (cleavageSitesOf ends p.2) st)
+
+/-- what is asked of the generator: every call returns a permutation of its argument -/
+def RngOK (rng : Nat → Nat → List Nat) : Prop := ∀ k n, (rng k n).Perm (List.range n)
+
+/-- what is asked of the regex engine: match ends are reported in non-decreasing order and
+lie inside the text -/
+def EndsOK (ends : List α → List Nat) : Prop :=
+  ∀ seq, (ends seq).Pairwise (· ≤ ·) ∧ ∀ s ∈ ends seq, s ≤ seq.length
+
+/-! ### defaults of the public signature -/
+
+/-- `decoy_prefix="decoy_"`.  src: mokapot/parsers/fasta.py:193 -/
+def defaultPrefix : List Char := ['d', 'e', 'c', 'o', 'y', '_']
+/-- `enzyme="[KR]"`.  src: mokapot/parsers/fasta.py:194 -/
+def defaultCut (c : Char) : Bool := c = 'K' || c = 'R'
+/-- `textwrap.wrap` default `width=70`.  src: mokapot/parsers/fasta.py:251 -/
+def wrapWidth : Nat := 70
+
+/-- `make_decoys(fasta, out_file)`: `reverse=False`, `concatenate=True`.
+src: mokapot/parsers/fasta.py:190-197 -/
+def makeDecoysDefault (rng : Nat → Nat → List Nat) (old : Option (List Char)) (files : List (List Char)) :
+    Option (List Char × Nat) :=
+  makeDecoysS false rng defaultPrefix (matchEnds defaultCut noBlock 0) true wrapWidth old files
+
+/-- all clauses of C18 for the entries `os` re-read from an output file against the targets
+`ts` (driver op `spec-C18`): count, targets first and unchanged, names, and per sequence the
+peptide clauses at the sites `sitesOf t` (plus equal sites when `resClass` gives the class) -/
+def fileOK (pre : List Char) (sitesOf : List Char → List Nat) (resClass : Option (Char → Bool))
+    (reverse concat : Bool) (ts os : List (List Char × List Char)) : Bool :=
+  os.length == (if concat then ts.length else 0) + ts.length &&
+  (!concat || os.take ts.length == ts) &&
+  (os.drop (if concat then ts.length else 0)).map (·.1) == ts.map (fun t => pre ++ t.1) &&
+  (List.zipWith (fun t d => pepsOKAt (sitesOf t.2) reverse t.2 d.2 &&
+      (resClass.map (fun cut => cleavageSites cut noBlock d.2 == cleavageSites cut noBlock t.2)).getD true)
+    ts (os.drop (if concat then ts.length else 0))).all id
+
 end Mk.Decoys
